@@ -1,38 +1,25 @@
 SPECIFICATION Spec
-CONSTANTS MaxSteps = 2
+CONSTANTS
+ MaxSteps = 1
+ VBIN = {0, 3}
  VA = {0, 1, 3}
  VSD = {0, 3}
- ProvA = {"none", "ovr", "noovr", "broken"}
- BProfiles = {"nowhere", "path3", "prov"}
- WMs = {"default", "nofallback", "forcefallback"}
- FFFs = {{}, {"a"}}
+ ProvA = {"none", "ovr"}
+ BProfiles = {"nowhere", "path3"}
+ WMs = {"default", "nofallback"}
+ FFFs = {{}}
  CrossFamily = FALSE
- NameSeqIds = {"a", "ab", "ba"}
+ NameSeqIds = {"a", "ab"}
  MCReqs = {"true", "false", "disabled"}
  MCCons = {"any", "ge2"}
+ MCSites = {"root"}
+ MCDirs = {TRUE, FALSE}
  SubV = 3
  MainV = 1
  ProjV = 3
 INVARIANT TypeOK
-INVARIANT RelevantReadingsSuffice
-INVARIANT OperationalEqualsDeclarative
-INVARIANT OverrideWins
-INVARIANT SystemOrder
-INVARIANT SourceDirIsTheCallers
-INVARIANT DirsOnlyWhenGiven
-INVARIANT ForcedNeverUsesSystem
-INVARIANT NofallbackNeverConfigures
-INVARIANT FallbackOnlyWhenNeeded
-INVARIANT FallbackUsedWhenSystemFails
-INVARIANT RequiredContract
-INVARIANT DisabledSkipsLookup
-INVARIANT VersionRespected
-INVARIANT VersionMismatchIsNotFound
-INVARIANT CacheStable
-INVARIANT OverrideBeforeUse
-INVARIANT MachinesIsolated
-INVARIANT OneLiveNameDecides
-INVARIANT FirstNameWinsTies
+INVARIANT FindLaws
+INVARIANT OverrideLaws
 PROPERTY UsedNamesAreFrozen
 CHECK_DEADLOCK FALSE
 POSTCONDITION EmitSpace
